@@ -20,16 +20,21 @@ def directed_renewal(r):
     t0 = T // 2 + r.choice([0, T // 4])
     t1 = t0 + r.randrange(1, ttl1 * T)
     ttl2 = r.choice([3, 0xFFFFFF])
-    how = r.choice(["refresh", "refresh", "reboot", "stop"])
+    how = r.choice(["refresh", "refresh", "reboot", "stop", "rejected-first", "rejected-first"])
     events = [(0, (1, [17, 1])), (0, (1, [0]))]
+    rejects = [5] if how == "rejected-first" else []
     events.append((t0, (0, 1, False, peers[1].datagram([scen.sub_entry(r, svc, 5, ttl1, 0, 1, ep_n=1)], False))))
     if how == "reboot":
         peers[1].reboot()
     if how == "stop":
         events.append((t1, (0, 1, False, peers[1].datagram([scen.sub_entry(r, svc, 5, 0, 0, 1, ep_n=1)], False))))
         t1 += r.choice([1, T // 8])
+    if how == "rejected-first":
+        # the listener rejects the first Subscribe and changes its mind before the second one (same key, later deadline)
+        events.append((t1, (1, [21, 1, []])))
+        t1 += r.choice([0, 1, T // 8])
     events.append((t1, (0, 1, False, peers[1].datagram([scen.sub_entry(r, svc, 5, ttl2, 0, 1, ep_n=1)], False))))
-    return dict(cfg=tuple(cfg), insts=[(1, conv.s_service(svc), [])], draws=[0] * 8, events=events, end=t0 + ttl1 * T + 2 * T, rev=r.random() < 0.3, fuel=20000)
+    return dict(cfg=tuple(cfg), insts=[(1, conv.s_service(svc), rejects)], draws=[0] * 8, events=events, end=max(t0 + ttl1 * T, t1 + (3 if ttl2 == 3 else 0) * T) + 2 * T, rev=r.random() < 0.3, fuel=20000)
 
 
 def run(ctx):
